@@ -392,7 +392,7 @@ class _Argon2Common(  # type: ignore[misc]
                 (?P<digest>.+)
             )?
         )?
-        $
+        \Z
     """,  # type: ignore[arg-type]
         re.VERBOSE,
     )
